@@ -23,6 +23,11 @@ func init() {
 		Assumptions: []string{"buildReferrers and replaceAll visit exactly what Operands yields (checked: they call Operands)"},
 		Run:         runC02,
 		Mutants: []Mutant{
+			{Name: "switch-header-block-saved-before-tag", File: "go/ir/builder.go", Rule: "R2.6", KeyPart: "switchStmt::entry::b.expr(fn, s.Tag)",
+				Old: "\ttag := b.expr(fn, s.Tag)\n\t// Lowering the tag may open new blocks (a && b, a || b); the switch is\n\t// emitted in the block that is current afterwards.\n\tentry := fn.currentBlock\n", New: "\tentry := fn.currentBlock\n\ttag := b.expr(fn, s.Tag)\n"},
+			{Name: "typeswitch-header-block-saved-before-tag", File: "go/ir/builder.go", Rule: "R2.6", KeyPart: "typeSwitchStmt::entry",
+				Old: "\tvar tag Value\n\tswitch e := s.Assign.(type) {\n\tcase *ast.ExprStmt: // x.(type)\n", New: "\tentry := fn.currentBlock\n\tvar tag Value\n\tswitch e := s.Assign.(type) {\n\tcase *ast.ExprStmt: // x.(type)\n",
+				More: []Edit{{File: "go/ir/builder.go", Old: "\tentry := fn.currentBlock\n\tdone := fn.newBasicBlock(\"typeswitch.done\")\n", New: "\tdone := fn.newBasicBlock(\"typeswitch.done\")\n"}}},
 			{Name: "operand-not-listed", File: "go/ir/ssa.go", Rule: "R2.1", KeyPart: "MapUpdate",
 				Old: "\treturn append(rands, &v.Map, &v.Key, &v.Value)\n", New: "\treturn append(rands, &v.Map, &v.Key)\n"},
 			{Name: "select-send-not-listed", File: "go/ir/ssa.go", Rule: "R2.1", KeyPart: "Select",
@@ -646,6 +651,178 @@ func runC02(c *Ctx) {
 				_, listed := allowed[top.Name()]
 				c.Check(FuncKey(fn)+"::creates-Phi", al.Pos(), sized || listed, "a φ must be created with one edge slot per predecessor of its block (Edges sized by len(Preds), or built next to the jumps that create the predecessors)")
 			})
+		}
+	})
+	// R2.6: a block saved from fn.currentBlock in order to emit into it later
+	// (the switch header that is completed once the clauses are known) must
+	// still be open then. While the saved block is the current block, calling
+	// anything that lowers code can terminate it (a tag like `a && b` ends the
+	// block with an If and continues in binop.done); emitting into it
+	// afterwards puts a second terminator into a finished block and leaves the
+	// real current block without one.
+	c.Rule("R2.6", func() {
+		c.Floor("R2.6", 4)
+		isCur := func(v ssa.Value) bool { return IsFieldOf("ir.Function", "currentBlock")(v) }
+		// functions that can change the current block (directly or through callees of go/ir)
+		changes := map[*ssa.Function]bool{}
+		byName := map[string][]*ssa.Function{}
+		for _, fn := range funcs {
+			byName[fn.Name()] = append(byName[fn.Name()], fn)
+			Instrs(fn, false, func(in ssa.Instruction) {
+				if st, ok := in.(*ssa.Store); ok && isCur(st.Addr) {
+					changes[fn] = true
+				}
+			})
+		}
+		calleesOf := func(ci ssa.CallInstruction) []*ssa.Function {
+			cc := ci.Common()
+			if cc.IsInvoke() {
+				return byName[cc.Method.Name()]
+			}
+			if callee := cc.StaticCallee(); callee != nil {
+				return []*ssa.Function{callee}
+			}
+			return nil
+		}
+		for changed := true; changed; {
+			changed = false
+			for _, fn := range funcs {
+				if changes[fn] {
+					continue
+				}
+				for _, ci := range Calls(fn, false) {
+					for _, callee := range calleesOf(ci) {
+						if changes[callee] {
+							changes[fn] = true
+							changed = true
+						}
+					}
+				}
+			}
+		}
+		reviewed := map[string]string{
+			"(*honnef.co/go/tools/go/ir.builder).switchStmt::entry::b.expr(fn, cond)": "the case expressions lowered while the header block is current are constants (the `dynamic` test above sends every other switch to switchStmtDynamic), and b.expr emits nothing for a constant",
+		}
+		n := 0
+		for _, fn := range funcs {
+			// saved blocks: loads of fn.currentBlock that are later stored back into it
+			Instrs(fn, false, func(in ssa.Instruction) {
+				ld, ok := in.(*ssa.UnOp)
+				if !ok || ld.Op != token.MUL || !isCur(ld.X) {
+					return
+				}
+				var restores []ssa.Instruction
+				var uses []ssa.Instruction // emission into the saved block
+				Instrs(fn, false, func(x ssa.Instruction) {
+					switch x := x.(type) {
+					case *ssa.Store:
+						if isCur(x.Addr) && x.Val == ssa.Value(ld) {
+							restores = append(restores, x)
+							uses = append(uses, x)
+						}
+					case *ssa.Call:
+						name := CalleeName(&x.Call)
+						if (name == irPkg+".BasicBlock.emit" || name == irPkg+".addEdge") && len(x.Call.Args) > 0 && x.Call.Args[0] == ssa.Value(ld) {
+							uses = append(uses, x)
+						}
+					}
+				})
+				if len(restores) == 0 {
+					return
+				}
+				n++
+				name := "block"
+				if refs := ld.Referrers(); refs != nil {
+					for _, r := range *refs {
+						if dr, ok := r.(*ssa.DebugRef); ok {
+							_ = dr
+						}
+					}
+				}
+				if id := c.IdentAt(ld.Pos()); id != "" {
+					name = id
+				}
+				// instructions at which the saved block may be the current block
+				inRegion := map[ssa.Instruction]bool{}
+				var walk func(from ssa.Instruction)
+				seenStart := map[ssa.Instruction]bool{}
+				walk = func(from ssa.Instruction) {
+					if seenStart[from] {
+						return
+					}
+					seenStart[from] = true
+					type pos struct {
+						b *ssa.BasicBlock
+						i int
+					}
+					visited := map[*ssa.BasicBlock]bool{}
+					queue := []pos{{from.Block(), InstrIndex(from) + 1}}
+					for len(queue) > 0 {
+						q := queue[0]
+						queue = queue[1:]
+						stop := false
+						for k := q.i; k < len(q.b.Instrs); k++ {
+							x := q.b.Instrs[k]
+							if st, ok := x.(*ssa.Store); ok && isCur(st.Addr) {
+								stop = true // the current block changes here (a restore starts its own walk)
+								break
+							}
+							inRegion[x] = true
+						}
+						if stop {
+							continue
+						}
+						for _, succ := range q.b.Succs {
+							if !visited[succ] {
+								visited[succ] = true
+								queue = append(queue, pos{succ, 0})
+							}
+						}
+					}
+				}
+				walk(ld)
+				for _, r := range restores {
+					walk(r)
+				}
+				bad := map[string]ssa.Instruction{}
+				Instrs(fn, false, func(x ssa.Instruction) {
+					ci, ok := x.(ssa.CallInstruction)
+					if !ok || !inRegion[x] {
+						return
+					}
+					lowering := false
+					for _, callee := range calleesOf(ci) {
+						if changes[callee] {
+							lowering = true
+						}
+					}
+					if !lowering {
+						return
+					}
+					for _, u := range uses {
+						if ReachesFrom(fn, x, u) {
+							bad[c.CallText(x.Pos())] = x
+							break
+						}
+					}
+				})
+				key := FuncKey(fn) + "::" + name
+				if len(bad) == 0 {
+					c.Check(key+"::saved-block-still-open", ld.Pos(), true, "nothing that can end the block runs while the saved block is current and before it is emitted into again")
+					return
+				}
+				for _, callee := range SortedKeys(bad) {
+					k := key + "::" + callee
+					if why, ok := reviewed[k]; ok {
+						c.CheckTrivial(k+"::saved-block-still-open", bad[callee].Pos(), true, "reviewed: %s", why)
+						continue
+					}
+					c.Check(k+"::saved-block-still-open", bad[callee].Pos(), false, "the block saved in %q is the current block when %s runs, which can terminate it and continue in a new block; the saved block is emitted into again afterwards (second terminator in a finished block, the new block left open). Save the block after lowering, or emit into fn.currentBlock", name, callee)
+				}
+			})
+		}
+		if n < 4 {
+			c.Undecided("found only %d saved-and-restored current blocks in the builder", n)
 		}
 	})
 	_ = token.NoPos
